@@ -10,17 +10,24 @@ PID = "C02"
 def run(tier, seed):
     rng = random.Random(seed)
     mc = datacheck.design_check(tier)
-    nwalk, depth = (900, 10) if tier == "quick" else (12000, 12)
-    ws = datacheck.walks(nwalk, depth, seed)
+    nwalk, depth = (1200, 12) if tier == "quick" else (15000, 12)
+    ws = datacheck.walks(nwalk, depth, seed, cfg="cfg/Nonblock_sim.cfg", module="Nonblock_MC.tla")
     execs = []
     fmts = [None, "64BIT_OFFSET", "64BIT_DATA"]
+    V, D = datagen.NB_VARS, datagen.NB_DIMS
     for n, h in enumerate(ws):
-        tr = datagen.Translator(rng, flex=True, conv=True, modes=True)
-        execs.append({"x": "w%d" % n, "steps": datagen.fixture(fmt=fmts[n % 3]) + tr.steps(h)})
-    return datacheck.run(PID, tier, seed, execs, mc,
-                         extra_cov={"rule": "random walks of the Data model (TLC -simulate, depth %d): posts of iput/bput/iget over a menu of "
-                                            "regions (rows, strided columns, multi-record, varn, zero-length), waits and cancels of arbitrary "
-                                            "subsets in any id order, interleaved with blocking calls; each request is issued through a "
+        tr = datagen.Translator(rng, V, D, flex=True, conv=True, modes=True)
+        execs.append({"x": "w%d" % n, "steps": datagen.fixture(V, D, fmt=fmts[n % 3]) + tr.steps(h)})
+    # the recorded overlapping-read finding is kept out of the walks; one dedicated execution exercises it
+    execs.append({"x": "overlapread", "steps": datagen.fixture(V, D) + [
+        {"op": "put", "v": 0, "form": "var", "mode": "coll", "itype": "int", "vals": list(range(1, 25)), "obs": datagen.OBS},
+        {"op": "get", "kind": "i", "req": "d", "v": 0, "form": "vara", "itype": "int", "start": [0, 2], "count": [1, 1], "n": 1, "obs": datagen.OBS},
+        {"op": "get", "kind": "i", "req": "e", "v": 0, "form": "vars", "itype": "int", "start": [0, 0], "count": [2, 2], "stride": [1, 2], "n": 4, "obs": datagen.OBS},
+        {"op": "wait", "mode": "coll", "special": "ALL", "obs": datagen.OBS}]})
+    return datacheck.run(PID, tier, seed, execs, mc, header=datagen.header_for(V, D),
+                         extra_cov={"rule": "random walks of the Data model (TLC -simulate of Nonblock_MC, depth %d): posts of iput/bput/iget drawn from ALL "
+                                            "legal (start,count,stride) of F[6][4], R[t][4], G[t][2], H[4] and 3-element varn lists, waits of arbitrary "
+                                            "subsets in any id order (NC_REQ_NULL padding, *_ALL forms), cancels, interleaved with blocking calls; each request is issued through a "
                                             "randomly chosen equivalent API form; distinct_nontrivial counts distinct concrete calls" % depth,
                                     "walks": len(ws), "exhaustive": False},
                          assumptions=["no element is written twice among pending requests (generator restriction stated by the property)",
@@ -28,4 +35,4 @@ def run(tier, seed):
 
 
 def replay(path):
-    return datacheck.replay(PID, path)
+    return datacheck.replay(PID, path, header=datagen.header_for(datagen.NB_VARS, datagen.NB_DIMS))
